@@ -34,6 +34,7 @@ type VM struct {
 	curr      chan int
 	memory    int
 	limit     int
+	verif     verifSlot
 }
 
 func Debug() *VM {
@@ -72,6 +73,7 @@ func (vm *VM) Run(program *Program, env interface{}) (out interface{}, err error
 
 	vm.bytecode = program.Bytecode
 	vm.constants = program.Constants
+	verifBegin(vm, program, env)
 
 	for vm.ip < len(vm.bytecode) {
 
@@ -418,6 +420,7 @@ func (vm *VM) Run(program *Program, env interface{}) (out interface{}, err error
 		default:
 			panic(fmt.Sprintf("unknown bytecode %#x", op))
 		}
+		verifStep(vm, op)
 
 		if vm.debug {
 			vm.curr <- vm.ip
